@@ -352,7 +352,7 @@ func (fc *FCtx) assignTo(l ast.Expr, v Val, st *State) {
 		}
 		obj := fc.info().ObjectOf(l)
 		if obj == nil {
-			oos("assignment to unknown identifier %s", l.Name)
+			oos("assignment to unknown identifier %s (frame %s, depth %d)", l.Name, fc.frame().fi.Key, len(fc.frames))
 		}
 		if _, ok := obj.(*types.Var); !ok {
 			oos("assignment to non-variable %s", l.Name)
@@ -946,6 +946,10 @@ func (fc *FCtx) execRangeMap(s *ast.RangeStmt, st *State, label string, coll Val
 
 func (fc *FCtx) execDefer(s *ast.DeferStmt, st *State) *Flow {
 	name := fc.calleeName(s.Call)
+	if strings.HasPrefix(name, "(*github.com/bandprotocol/chain/v3/yoda.Context).update") {
+		fc.drop("defer " + name)
+		return single(st)
+	}
 	if isDroppedCall(name) || name == "(cosmossdk.io/store/types.Iterator).Close" || name == "(github.com/cosmos/cosmos-db.Iterator).Close" {
 		fc.drop("defer " + name)
 		return single(st)
@@ -1015,8 +1019,16 @@ func (fc *FCtx) execGo(s *ast.GoStmt, st *State) *Flow {
 }
 
 func (fc *FCtx) execSend(s *ast.SendStmt, st *State) *Flow {
-	fc.eval(s.Value, st)
-	fc.note("channel send modelled as a no-op on the sequential state (goroutine communication is not modelled)")
+	v := fc.eval(s.Value, st)
+	if g, ok := st.ghost["ChanSent"]; ok {
+		st.ghost["ChanSent"] = Val{T: fmt.Sprintf("(+ %s 1)", g.T), S: g.S}
+		if l, ok := st.ghost["ChanLast"]; ok && l.S == v.S {
+			st.ghost["ChanLast"] = Val{T: v.T, S: v.S, GoT: v.GoT}
+		}
+		fc.note("channel sends are counted in the ghost ChanSent (last value in ChanLast); goroutine scheduling is not modelled")
+	} else {
+		fc.note("channel send modelled as a no-op on the sequential state (goroutine communication is not modelled)")
+	}
 	return single(st)
 }
 
